@@ -1,14 +1,14 @@
 CONSTANTS
-  Family = "layouts"
-  Blocks = {30000}
+  Family = "scripts"
+  Blocks = {8, 16}
   I = 2
   Waits = {1, 2, 3}
-  MaxOps = 0
-  MaxChunks = 2
-  Kinds = {"rot", "flush"}
+  MaxOps = 4
+  MaxChunks = 3
+  Kinds = {"rot", "flush", "flush0"}
   Windows = "chunks"
-  MaxFaults = 0
-  MaxSyncFaults = 0
+  MaxFaults = 2
+  MaxSyncFaults = 1
   AdvanceOnFailure = FALSE
   ExactMax = 100
   TolDiv = 50
